@@ -498,7 +498,10 @@ def impl(case):
                         r = 'skipped'
                     else:
                         st = slots[op[1]]['store']
-                        r = ['s', st.format(st.get_unit(op[2]))]
+                        un = st.get_unit(op[2])
+                        comp = un ** 2 / st.get_unit('second')
+                        # formatted name; raw registry text and its formatted form, single and composite
+                        r = ['s', st.format(un), str(un), str(comp), st.format(comp)]
                 elif kind == 'convert':
                     m = slots[target].get('model')
                     if m is None:
@@ -618,9 +621,21 @@ def _lean_ops(case):
     return flat, spans
 
 
+def _strip_ops(obs):
+    """`_STORE_PREFIX.sub` on the raw texts the implementation produced (they carry this process's store ids)"""
+    out = []
+    for st in obs['steps']:
+        r = st['r']
+        if isinstance(r, list) and r and r[0] == 's':
+            out.append((r[2], r[1]))
+            out.append((r[3], r[4]))
+    return out
+
+
 def requests(case, obs):
     flat, _ = _lean_ops(case)
-    return [sx(['C16', ['probes'] + [Str(p) for p in obs['probes']], ['ops'] + flat])]
+    extra = [['strip', Str(raw)] for raw, _ in _strip_ops(obs)]
+    return [sx(['C16', ['probes'] + [Str(p) for p in obs['probes']], ['ops'] + flat + extra])]
 
 
 def _root_dict(sexp):
@@ -648,8 +663,12 @@ def compare(case, obs, replies):
     if not isinstance(rep, list):
         return 'model reply malformed: %r' % (rep,)
     flat, spans = _lean_ops(case)
-    if len(rep) != len(flat):
-        return 'model answered %d operations for %d' % (len(rep), len(flat))
+    strips = _strip_ops(obs)
+    if len(rep) != len(flat) + len(strips):
+        return 'model answered %d operations for %d' % (len(rep), len(flat) + len(strips))
+    for (raw, shown), r in zip(strips, rep[len(flat):]):
+        if str(r[0]) != shown:
+            return 'strip %r: model %r, implementation %r' % (raw, str(r[0]), shown)
     for (a, b), op, step in zip(spans, case['ops'], obs['steps']):
         if a == b:
             continue
@@ -885,6 +904,9 @@ def oracle(case, obs):
                     fails.append({'key': 'leak:names', 'detail': 'op %d %s gave %s' % (idx, op, r)})
             elif not (isinstance(r, list) and r[1] == want):
                 fails.append({'key': 'format-shows-prefix', 'detail': 'op %d %s gave %s' % (idx, op, r)})
+            elif r[2].endswith(want) and r[4] != r[3].replace(r[2][:len(r[2]) - len(want)], '') and x not in U.SI:
+                # the store's own prefix (read off the raw single name) removed by plain replacement
+                fails.append({'key': 'format-shows-prefix', 'detail': 'op %d %s composite gave %s' % (idx, op, r)})
     # (3) a conversion rule must at least stay inside its registry (inside it: recorded observation, see report)
     rule_at = [op[1] for op in case['ops'] if op[0] == 'rule']
     for j, visible, _ in obs['notes'].get('rule', []):
